@@ -141,3 +141,51 @@ func VerifLimitReadAll() {
 	zzverif.Assert(s.closes == 1, "closed_exactly_once_after_close")
 	zzverif.Cover("limit_readall_done")
 }
+
+type vFailingSink struct {
+	got    []byte
+	failAt int // fail once this many bytes have been accepted
+}
+
+func (w *vFailingSink) Write(p []byte) (int, error) {
+	if len(w.got)+len(p) > w.failAt {
+		n := w.failAt - len(w.got)
+		w.got = append(w.got, p[:n]...)
+		return n, vErrSrc
+	}
+	w.got = append(w.got, p...)
+	return len(p), nil
+}
+
+// The WriteTo path (io.Copy) with a failure part-way - a source that fails mid-stream, or a destination writer that
+// fails after a forked number of bytes: the copy reports the error, what reached the writer is a prefix of the
+// concatenation, and after Close every closable source - the ones already copied, the one the copy stopped in and the
+// ones not yet touched - has been closed exactly once.
+//
+//verif:harness prop=C16 name=multi_writeto_errors unwind=14
+func VerifMultiWriteToErrors() {
+	d1 := zzverif.Bytes("data1", 1+zzverif.Choose("L1", 2))
+	d2 := zzverif.Bytes("data2", 1+zzverif.Choose("L2", 2))
+	d3 := zzverif.Bytes("data3", 1)
+	all := append(append(append([]byte{}, d1...), d2...), d3...)
+	s1 := &vSrc{data: d1, eofWithData: zzverif.Bool("eofWithData"), maxZero: 0, failAt: -1}
+	s2 := &vSrc{data: d2, maxZero: 0, failAt: -1}
+	s3 := &vSrc{data: d3, maxZero: 0, failAt: -1}
+	w := &vFailingSink{failAt: len(all) + 1}
+	if zzverif.Bool("writer_fails") {
+		w.failAt = zzverif.Choose("writer_fail_at", len(all))
+	} else {
+		s2.failAt = zzverif.Choose("source_fail_at", len(d2))
+		s2.failErr = vErrSrc
+	}
+	mr := NewMultiReaderCloser(s1, s2, s3)
+	n, err := mr.writeToWithBuffer(w, make([]byte, 2))
+	zzverif.Assert(err != nil, "copy_reports_the_failure")
+	zzverif.Assert(n == int64(len(w.got)) || n >= int64(len(w.got)), "count_covers_what_was_written")
+	zzverif.Assert(len(w.got) <= len(all) && zzverif.EqBytes(w.got, all[:len(w.got)]), "writer_got_a_prefix")
+	mr.Close()
+	zzverif.Assert(s1.closes == 1 && s2.closes == 1 && s3.closes == 1, "each_source_closed_exactly_once_after_close")
+	mr.Close()
+	zzverif.Assert(s1.closes == 1 && s2.closes == 1 && s3.closes == 1, "second_close_is_a_no_op")
+	zzverif.Cover("multi_writeto_errors_done")
+}
